@@ -42,13 +42,14 @@ Definition tls_stream (c : conn) : bytes := concat (c_tls c).
 (** the records DNS has for this very host *)
 Definition own_tlsa (c : conn) : list (N * Z) := if c_named c then c_tlsa c else [].
 Definition usable_rec (r : N * Z) : bool := usage_usable (fst r) && (0 <? snd r)%Z.
-(** the host has to authenticate itself *)
-Definition need_verify (c : conn) : bool := pinned c || existsb usable_rec (own_tlsa c).
+(** the host has to authenticate itself; [tf] says which TLSA records count for a host
+    (the property: [own_tlsa], the host's own records) *)
+Definition need_verify (tf : conn -> list (N * Z)) (c : conn) : bool := pinned c || existsb usable_rec (tf c).
 
 Definition line_ext (l : bytes) : N :=
   let e := check_ext (ext_arg l) in if (e <? 0)%Z then 0%N else Z.to_N e.
 
-Definition step (k : tcase) (c : cst) (e : ev) : option cst :=
+Definition step (tf : conn -> list (N * Z)) (k : tcase) (c : cst) (e : ev) : option cst :=
   let cn := conn_of k (x_k c) in
   match e with
   | EvTlsa _ => Some c
@@ -94,24 +95,26 @@ Definition step (k : tcase) (c : cst) (e : ev) : option cst :=
       end
   | EvMail t ext =>
       match x_ph c with
-      | PClear => if t || k_route k || need_verify cn then None else Some c
+      | PClear => if t || k_route k || need_verify tf cn then None else Some c
       | PTls _ =>
-          if negb t || (need_verify cn && negb (x_vfy c)) || negb (N.eqb (N.lor (x_acc c) ext) (x_acc c)) then None
+          if negb t || (need_verify tf cn && negb (x_vfy c)) || negb (N.eqb (N.lor (x_acc c) ext) (x_acc c)) then None
           else Some c
       | _ => None
       end
   end.
 
-Fixpoint steps (k : tcase) (c : cst) (tr : list ev) : option cst :=
+Fixpoint steps (tf : conn -> list (N * Z)) (k : tcase) (c : cst) (tr : list ev) : option cst :=
   match tr with
   | [] => Some c
-  | e :: tr' => match step k c e with Some c' => steps k c' tr' | None => None end
+  | e :: tr' => match step tf k c e with Some c' => steps tf k c' tr' | None => None end
   end.
 
 Definition cst0 : cst := mkC 0 PNone false 0.
 
-Definition spec_ok_C18 (k : tcase) (tr : list ev) : bool :=
-  match steps k cst0 tr with Some _ => true | None => false end.
+Definition spec_ok_with (tf : conn -> list (N * Z)) (k : tcase) (tr : list ev) : bool :=
+  match steps tf k cst0 tr with Some _ => true | None => false end.
+
+Definition spec_ok_C18 (k : tcase) (tr : list ev) : bool := spec_ok_with own_tlsa k tr.
 
 (** the known finding F-C18-3: connect_mx() asks for the TLSA records of the first MX of the
     list and applies them to whatever MX it connects to.  The class: some MX of the case
@@ -152,7 +155,7 @@ Definition cut_at (stream l : bytes) (lft : nat) : Prop :=
   exists pre post, stream = pre ++ l ++ [CR; LF] ++ post /\ length post = lft.
 
 (** what may be observed as the next event [e] after the events [pre] *)
-Definition C18_event_ok (k : tcase) (pre : list ev) (e : ev) : Prop :=
+Definition C18_event_ok (tf : conn -> list (N * Z)) (k : tcase) (pre : list ev) (e : ev) : Prop :=
   let since := since_conn pre in
   match e with
   | EvHs p _ =>
@@ -173,9 +176,9 @@ Definition C18_event_ok (k : tcase) (pre : list ev) (e : ev) : Prop :=
       exists i, last_conn pre = Some i /\
       ~ hs_failed since /\ (t = true <-> hs_done since) /\
       (* in clear only without a certificate of the route and without a requirement for this host *)
-      (t = false -> k_route k = false /\ need_verify (conn_of k i) = false) /\
+      (t = false -> k_route k = false /\ need_verify tf (conn_of k i) = false) /\
       (* a host that has to authenticate itself did so *)
-      (need_verify (conn_of k i) = true -> In (EvVfy 0) since) /\
+      (need_verify tf (conn_of k i) = true -> In (EvVfy 0) since) /\
       (* inside TLS every extension relied on was offered in a line received inside TLS *)
       (t = true -> forall bit, N.testbit ext bit = true ->
          exists l lft, In (EvR true (RLine l) lft) since /\ N.testbit (line_ext l) bit = true)
@@ -184,8 +187,8 @@ Definition C18_event_ok (k : tcase) (pre : list ev) (e : ev) : Prop :=
   | _ => True
   end.
 
-Definition C18_trace_ok (k : tcase) (tr : list ev) : Prop :=
-  forall pre e post, tr = pre ++ e :: post -> C18_event_ok k pre e.
+Definition C18_trace_ok (tf : conn -> list (N * Z)) (k : tcase) (tr : list ev) : Prop :=
+  forall pre e post, tr = pre ++ e :: post -> C18_event_ok tf k pre e.
 
 (** the property for one case *)
-Definition C18_holds (k : tcase) : Prop := C18_trace_ok k (trace k).
+Definition C18_holds (k : tcase) : Prop := C18_trace_ok own_tlsa k (trace k).
